@@ -212,16 +212,35 @@ macro_rules | `(tactic| stat_step) => `(tactic| with_reducible apply Stat.guardR
 theorem Stat.frontStep {w0 w : World} (h : Stat w0 w) (g : Nat) (gd : Guard) : Stat w0 (frontStep w g gd) := by
   unfold S3.frontStep; stat
 
-theorem Stat.guardSignal' : ∀ (fuel : Nat) (w : World) (g : Nat), Stat w (guardSignal fuel w g) := by
+theorem Stat.condSignal_fst {w0 w : World} (h : Stat w0 w) (g : Nat) : Stat w0 (condSignal w g).1 := by
+  simp only [Sim.condSignal]
+  split
+  · exact h
+  · split
+    · exact h
+    · refine Stat.foldl (fun w q => by stat) _ ?_
+      exact Stat.foldl (fun w q => by stat) _ h
+macro_rules | `(tactic| stat_step) => `(tactic| with_reducible apply Stat.condSignal_fst)
+
+theorem Stat.ownStep {w0 w : World} (h : Stat w0 w) (fwd : Bool) (g : Nat) (gd : Guard) : Stat w0 (ownStep fwd w g gd) := by
+  unfold S3.ownStep
+  split
+  · exact h.condSignal_fst g
+  · exact h.frontStep g gd
+
+theorem Stat.guardSignalF' : ∀ (fuel : Nat) (fwd : Bool) (w : World) (g : Nat), Stat w (guardSignalF fwd fuel w g) := by
   intro fuel
   induction fuel with
-  | zero => intro w g; rw [guardSignal_zero]; exact (Stat.refl w).fail _
+  | zero => intro fwd w g; rw [guardSignalF_zero]; exact (Stat.refl w).fail _
   | succ fuel ih =>
-    intro w g
-    rw [guardSignal_succ]
+    intro fwd w g
+    rw [guardSignalF_succ]
     split
     · exact Stat.refl w
-    · exact Stat.foldl (fun w o => ih w o) _ ((Stat.refl w).frontStep g _)
+    · exact Stat.foldl (fun w o => ih true w o) _ ((Stat.refl w).ownStep fwd g _)
+
+theorem Stat.guardSignal' (fuel : Nat) (w : World) (g : Nat) : Stat w (guardSignal fuel w g) :=
+  Stat.guardSignalF' fuel false w g
 
 theorem Stat.guardSignal {w0 w : World} (h : Stat w0 w) (fuel : Nat) (g : Nat) : Stat w0 (guardSignal fuel w g) :=
   h.trans (Stat.guardSignal' fuel w g)
@@ -372,15 +391,6 @@ theorem Stat.pqPutLoop_fst {w0 w : World} (h : Stat w0 w) (p : Pid) (k obj : Nat
   simp only [Sim.pqPutLoop]; stat
 macro_rules | `(tactic| stat_step) => `(tactic| with_reducible apply Stat.pqPutLoop_fst)
 
-theorem Stat.condSignal_fst {w0 w : World} (h : Stat w0 w) (g : Nat) : Stat w0 (condSignal w g).1 := by
-  simp only [Sim.condSignal]
-  split
-  · exact h
-  · split
-    · exact h
-    · refine Stat.foldl (fun w q => by stat) _ ?_
-      exact Stat.foldl (fun w q => by stat) _ h
-macro_rules | `(tactic| stat_step) => `(tactic| with_reducible apply Stat.condSignal_fst)
 
 theorem Stat.acquireStep_fst {w0 w : World} (h : Stat w0 w) (p : Pid) (r : Nat) : Stat w0 (acquireStep w p r).1 := by
   simp only [Sim.acquireStep]; stat
